@@ -1,8 +1,9 @@
 /-
 C05 (the token tree obeys the documented grammar): headline theorem for the CONCRETE parser model.
 
-`parseDoc_wf`: for every configuration without block plugins, hooks and the `footnote` inline rule (the core
-configurations), whose ATX rules capture one to six `#` (`CfgAtx`; discharged from a decidable check of the regexes
+`parseDoc_wf`: for every configuration all of whose handlers are covered (no hooks, no `footnote` inline rule, no
+uncovered block / inline plugin rule: `coreCfgB`; the core configurations and those with the plugins formatting, url,
+speedup, math, spoiler), whose ATX rules capture one to six `#` (`CfgAtx`; discharged from a decidable check of the regexes
 in `C05GrammarAtx`, which also has the hypothesis-free `parseDoc_wf_core`), and `max_nested_level ≥ 1`, every token tree
 returned by `Model.parseDoc` satisfies the grammar predicate `wfSeq` of `Mistune.SecondPass` (the predicate behind
 `wfTokens`), nesting clause included, with an explicit fuel that covers the deepest tree the model can return.
@@ -37,7 +38,7 @@ theorem parseDoc_wf (cfg : MdCfg) (hcore : coreCfgB cfg = true) (hatx : CfgAtx c
   obtain ⟨⟨⟨⟨⟨hnp, hpl⟩, hbr⟩, har⟩, hfn⟩, hmx⟩ := hcore
   have hna : (cfg.blockSpec.lookup "ref_abbr").isSome = false := by
     simp only [noBlockPlugins, Bool.and_eq_true, Bool.not_eq_true'] at hnp
-    exact hnp.1.1.1.1.1.1.2
+    exact hnp.1.1.1.2
   have hfn' : ¬ "footnote" ∈ cfg.inlineRules := by simpa using hfn
   cases hb : blockParse cfg (norm s) with
   | error e =>
@@ -70,7 +71,7 @@ theorem parseDoc_shp (cfg : MdCfg) (hcore : coreCfgB cfg = true) (hatx : CfgAtx 
   obtain ⟨⟨⟨⟨⟨hnp, hpl⟩, hbr⟩, har⟩, hfn⟩, hmx⟩ := hcore
   have hna : (cfg.blockSpec.lookup "ref_abbr").isSome = false := by
     simp only [noBlockPlugins, Bool.and_eq_true, Bool.not_eq_true'] at hnp
-    exact hnp.1.1.1.1.1.1.2
+    exact hnp.1.1.1.2
   have hfn' : ¬ "footnote" ∈ cfg.inlineRules := by simpa using hfn
   cases hb : blockParse cfg (norm s) with
   | error e =>
@@ -108,8 +109,11 @@ theorem parseDoc_wfTokens (cfg : MdCfg) (hcore : coreCfgB cfg = true) (hatx : Cf
 
 /-! ### the decidable side conditions hold for the core configurations -/
 
-/-- the configurations without plugins (for the others the model of the inline / block plugins is outside this proof) -/
-def coreNames : List String := ["core", "core-noescape", "core-hardwrap", "ast-core", "markdown-core", "rst-core"]
+/-- the configurations all of whose handlers are covered: the plugin-free ones and those with the inline plugins\nformatting / url / speedup / math / spoiler only (other plugin handlers are outside this proof) -/
+def coreNames : List String :=
+  ["core", "core-noescape", "core-hardwrap", "ast-core", "markdown-core", "rst-core",
+   -- configurations with covered inline plugins (formatting, url)
+   "only-strikethrough", "only-mark", "only-insert", "only-superscript", "only-subscript", "only-url", "only-speedup", "only-math", "only-spoiler"]
 
 theorem coreCfgs_ok : ∀ n ∈ coreNames, (findCfg n).any coreCfgB = true := by decide +kernel
 
